@@ -51,10 +51,32 @@ const DETERMINISTIC_RANDOM_STATE: RandomState = unsafe { std::mem::transmute((0u
 // We are using a new type in order to hijack `new` for deterministic construction.
 // Unfortunately this means that we need to wrap/unwrap (via `From` impls below) at
 // library boundaries. If there would be a way to avoid the new type, that would be great.
-#[derive(Clone, Debug, Serialize, Deserialize)]
+#[derive(Clone, Debug, Serialize)]
 #[serde(bound(serialize = "K: Eq + Serialize, V: Serialize"))]
-#[serde(bound(deserialize = "K: Eq + Hash + Deserialize<'de>, V: Deserialize<'de>"))]
 pub struct HashMap<K, V>(StdHashMap<K, V, RandomState>);
+
+// Not derived: the derived impl would build the inner map with `RandomState::default()`, i.e. with
+// random keys, and the result would not iterate deterministically. Insert the entries one by one, in
+// document order, into a map created with the deterministic state.
+impl<'de, K: Eq + Hash + Deserialize<'de>, V: Deserialize<'de>> Deserialize<'de> for HashMap<K, V> {
+    fn deserialize<D: serde::Deserializer<'de>>(deserializer: D) -> Result<Self, D::Error> {
+        struct MapVisitor<K, V>(std::marker::PhantomData<(K, V)>);
+        impl<'de, K: Eq + Hash + Deserialize<'de>, V: Deserialize<'de>> serde::de::Visitor<'de> for MapVisitor<K, V> {
+            type Value = HashMap<K, V>;
+            fn expecting(&self, f: &mut std::fmt::Formatter) -> std::fmt::Result {
+                f.write_str("a map")
+            }
+            fn visit_map<A: serde::de::MapAccess<'de>>(self, mut access: A) -> Result<Self::Value, A::Error> {
+                let mut map = HashMap::new();
+                while let Some((k, v)) = access.next_entry()? {
+                    map.insert(k, v);
+                }
+                Ok(map)
+            }
+        }
+        deserializer.deserialize_map(MapVisitor(std::marker::PhantomData))
+    }
+}
 
 impl<K, V> HashMap<K, V> {
     pub fn new() -> Self {
@@ -178,10 +200,30 @@ impl<K: Eq + Hash, V: PartialEq> PartialEq for HashMap<K, V> {
 
 impl<K: UnwindSafe, V: UnwindSafe> UnwindSafe for HashMap<K, V> {}
 
-#[derive(Clone, Debug, Serialize, Deserialize)]
+#[derive(Clone, Debug, Serialize)]
 #[serde(bound(serialize = "T: Eq + Serialize"))]
-#[serde(bound(deserialize = "T: Eq + Hash + Deserialize<'de>"))]
 pub struct HashSet<T>(StdHashSet<T, RandomState>);
+
+// Not derived, for the same reason as for `HashMap`.
+impl<'de, T: Eq + Hash + Deserialize<'de>> Deserialize<'de> for HashSet<T> {
+    fn deserialize<D: serde::Deserializer<'de>>(deserializer: D) -> Result<Self, D::Error> {
+        struct SetVisitor<T>(std::marker::PhantomData<T>);
+        impl<'de, T: Eq + Hash + Deserialize<'de>> serde::de::Visitor<'de> for SetVisitor<T> {
+            type Value = HashSet<T>;
+            fn expecting(&self, f: &mut std::fmt::Formatter) -> std::fmt::Result {
+                f.write_str("a sequence")
+            }
+            fn visit_seq<A: serde::de::SeqAccess<'de>>(self, mut access: A) -> Result<Self::Value, A::Error> {
+                let mut set = HashSet::new();
+                while let Some(v) = access.next_element()? {
+                    set.insert(v);
+                }
+                Ok(set)
+            }
+        }
+        deserializer.deserialize_seq(SetVisitor(std::marker::PhantomData))
+    }
+}
 
 impl<T> HashSet<T> {
     pub fn new() -> Self {
@@ -233,21 +275,30 @@ impl<T> Default for HashSet<T> {
 impl<T: Eq + Hash + Clone> BitAnd<&HashSet<T>> for &HashSet<T> {
     type Output = HashSet<T>;
     fn bitand(self, rhs: &HashSet<T>) -> HashSet<T> {
-        HashSet(self.0.bitand(&rhs.0))
+        // std's operator builds its result with `RandomState::default()`, i.e. with random keys.
+        // Collect into a deterministic set instead; the elements arrive in the (deterministic)
+        // iteration order of the operands.
+        self.0.intersection(&rhs.0).cloned().collect()
     }
 }
 
 impl<T: Eq + Hash + Clone> BitOr<&HashSet<T>> for &HashSet<T> {
     type Output = HashSet<T>;
     fn bitor(self, rhs: &HashSet<T>) -> HashSet<T> {
-        HashSet(self.0.bitor(&rhs.0))
+        // std's operator builds its result with `RandomState::default()`, i.e. with random keys.
+        // Collect into a deterministic set instead; the elements arrive in the (deterministic)
+        // iteration order of the operands.
+        self.0.union(&rhs.0).cloned().collect()
     }
 }
 
 impl<T: Eq + Hash + Clone> BitXor<&HashSet<T>> for &HashSet<T> {
     type Output = HashSet<T>;
     fn bitxor(self, rhs: &HashSet<T>) -> HashSet<T> {
-        HashSet(self.0.bitxor(&rhs.0))
+        // std's operator builds its result with `RandomState::default()`, i.e. with random keys.
+        // Collect into a deterministic set instead; the elements arrive in the (deterministic)
+        // iteration order of the operands.
+        self.0.symmetric_difference(&rhs.0).cloned().collect()
     }
 }
 
@@ -304,7 +355,10 @@ impl<T: Eq + Hash> PartialEq for HashSet<T> {
 impl<T: Eq + Hash + Clone> Sub<&HashSet<T>> for &HashSet<T> {
     type Output = HashSet<T>;
     fn sub(self, rhs: &HashSet<T>) -> HashSet<T> {
-        HashSet(self.0.sub(&rhs.0))
+        // std's operator builds its result with `RandomState::default()`, i.e. with random keys.
+        // Collect into a deterministic set instead; the elements arrive in the (deterministic)
+        // iteration order of the operands.
+        self.0.difference(&rhs.0).cloned().collect()
     }
 }
 
